@@ -87,7 +87,7 @@ def run_tlc(module: str, cfg_text: str, *, workers: int | str = 'auto',
             jvm.append('-Dtlc2.tool.queue.IStateQueue=StateDeque')
         cmd = _java_cmd(jvm, heap) + ['tlc2.TLC', '-workers', str(workers),
                                        '-metadir', os.path.join(d, 'meta'),
-                                       '-noGenerateSpecTE', '-config', cfg]
+                                       '-noGenerateSpecTE', '-maxSetSize', '30000000', '-config', cfg]
         if not deadlock:
             cmd.append('-deadlock')      # -deadlock DISABLES deadlock checking
         if simulate is not None:
